@@ -297,6 +297,26 @@ Definition adv_scatter (T : Type) (xs : list T) (idx : list nat) (n : nat) : res
       foldM (fun acc p => assign acc (fst p) (snd p)) (rev (combine idx xs)) (repeat (last xs x0) n)
   end.
 
+(* ---- a second adversarial conforming back-end: argsort keeps the FIRST of a group of equal keys in
+   front and lists the others in decreasing index order; component numbering reversed; the other
+   two choices as on Vec ---- *)
+Definition adv2_argsort (xs : list nat) : list nat :=
+  fold_left (fun acc i =>
+    (fix ins (l : list nat) : list nat :=
+       match l with
+       | [] => [i]
+       | j :: l' => if nth i xs 0 <? nth j xs 0 then i :: l
+                    else if nth i xs 0 =? nth j xs 0 then j :: i :: l'
+                    else j :: ins l'
+       end) acc) (seq 0 (length xs)) [].
+
+Definition Adv2Backend : Backend := {|
+  b_argsort := adv2_argsort;
+  b_conn_comp := adv_conn_comp;
+  b_sparse_bincount := vec_sparse_bincount;
+  b_scatter := vec_scatter;
+|}.
+
 Definition AdvBackend : Backend := {|
   b_argsort := adv_argsort;
   b_conn_comp := adv_conn_comp;
